@@ -33,7 +33,7 @@ UNITS = [
 META = dict(
     level='proof',
     level_text='mutex::ready (try-lock), mutex::subscribe (request push incl. its CAS retry loop), mutex::unlock<Fn> (both instantiations) are verified thread-modularly over protocol M: at every atomic step the environment may do whatever the protocol allows (while I own the mutex others only push requests; otherwise the cell may hold anything), and a request pushed onto a held mutex belongs to the holder from that instant (its link is havocked at once). Contracts from the property: try-lock granted <=> the token was taken and the cell was NULL at that instant; subscribe not-suspended <=> the mutex was free at the instant of the push (then exactly one build_queue with the own request as stop), suspended <=> node handed to the holder and never looked at again; unlock: exactly one of {cell doorman->NULL with nothing pending, hand-over to the head of the private arrival-ordered queue by exactly one call of the functor}, queue refilled only when empty. ownership::release / ~ownership / try_lock are forwarder units (exactly one unlock / none when empty). build_queue (list reversal) is bounded: FIFO arrival order, stop node never dereferenced.',
-    level_note='Trusted: protocol-M primitives and their rely (lib/rt_atomic_protM.c), rely/guarantee soundness argument, abstract callees (build_queue inside subscribe/unlock units, the resume functor, unlock inside ownership units), clang front end, ir2c. Bounded: build_queue N=5/8. Not covered: liveness (a request is eventually granted), co_awaiter<mutex> glue (await_suspend = set_handle + subscribe), mutex destructor. Genuine defect found and fixed: aedc04c (see known_findings.json).',
+    level_note='Trusted: protocol-M primitives and their rely (lib/rt_atomic_protM.c), rely/guarantee soundness argument, abstract callees (build_queue inside subscribe/unlock units, the resume functor, unlock inside ownership units), clang front end, ir2c. Bounded: build_queue N=5/8. Not covered: liveness (a request is eventually granted), co_awaiter<mutex> glue (await_suspend = set_handle + subscribe), mutex destructor. Genuine defect found and fixed: a0e1620 (see known_findings.json).',
     technique='CBMC code contracts + loop contracts via goto-instrument --dfcc on the C translation of clang IR of mutex.h; atomic instructions replaced by rely/guarantee protocol primitives with ghost token/ownership; bounded unwinding for the list reversal; schedule replay through a guarded sync hook',
     trusted_base=['protocol-M atomic primitives and environment model (lib/rt_atomic_protM.c)', 'abstract callees recorded in ghost state (specs/C07/m_spec.h)'],
     assumptions=['rely/guarantee soundness (argued, DESIGN 3.5)', 'atomic RMWs on one location are totally ordered', 'build_queue: bounded(N) chain length'],
